@@ -1218,19 +1218,38 @@ func (x *FnIndex) symLen(s ssa.Value) linform {
 
 // pathExistsE is pathExists with a set of CFG edges that may not be taken.
 func pathExistsE(fn *ssa.Function, from ssa.Instruction, to func(ssa.Instruction) bool, forbidden map[edgeKey]bool) (ssa.Instruction, bool) {
+	return pathExistsEB(fn, from, to, forbidden, nil)
+}
+
+// pathExistsEB: forbidden edges and blocking instructions; from == nil starts at the entry.
+func pathExistsEB(fn *ssa.Function, from ssa.Instruction, to func(ssa.Instruction) bool, forbidden map[edgeKey]bool, blocked func(ssa.Instruction) bool) (ssa.Instruction, bool) {
 	type start struct {
 		b *ssa.BasicBlock
 		i int
 	}
-	work := []start{{from.Block(), instrIdx(from) + 1}}
+	var work []start
 	seen := map[*ssa.BasicBlock]bool{}
+	if from == nil {
+		work = []start{{fn.Blocks[0], 0}}
+		seen[fn.Blocks[0]] = true
+	} else {
+		work = []start{{from.Block(), instrIdx(from) + 1}}
+	}
 	for len(work) > 0 {
 		s := work[len(work)-1]
 		work = work[:len(work)-1]
+		stop := false
 		for i := s.i; i < len(s.b.Instrs); i++ {
 			if to(s.b.Instrs[i]) {
 				return s.b.Instrs[i], true
 			}
+			if blocked != nil && blocked(s.b.Instrs[i]) {
+				stop = true
+				break
+			}
+		}
+		if stop {
+			continue
 		}
 		for k, n := range s.b.Succs {
 			if forbidden[edgeKey{s.b, k}] {
